@@ -1,6 +1,7 @@
 package main
 
 import (
+	"encoding/json"
 	"errors"
 	"fmt"
 
@@ -174,7 +175,31 @@ func c02Verbs(w *rt.W, n uint64) {
 				fail("verb", "Sprintf "+verb, s, want)
 			}
 		}
-		w.Eval(49)
+		for _, verb := range wideVerbs {
+			if s, want := fmt.Sprintf(verb, num), wantD; s != want {
+				fail("verb", "Sprintf "+verb, s, want)
+			}
+		}
+		w.Eval(49 + 208)
+		// through encoding/json (a consumer of MarshalText/UnmarshalText): the numeral as a JSON string, read back
+		// into a variable that holds another number, alone and inside a document
+		jb, jerr := json.Marshal(num)
+		if jerr != nil || string(jb) != `"`+wantD+`"` {
+			fail("json", "json.Marshal", string(jb), `"`+wantD+`"`)
+		}
+		if roman.MaxInputLength == 0 || len(wantD) <= roman.MaxInputLength {
+			back := roman.Number(n + 14)
+			doc := struct {
+				A roman.Number
+				L []roman.Number
+			}{roman.Number(n + 7), []roman.Number{5, 6}}
+			e1 := json.Unmarshal(jb, &back)
+			e2 := json.Unmarshal([]byte(`{"A":`+string(jb)+`,"L":[`+string(jb)+`,`+string(jb)+`]}`), &doc)
+			if e1 != nil || e2 != nil || uint64(back) != n || uint64(doc.A) != n || len(doc.L) != 2 || uint64(doc.L[0]) != n || uint64(doc.L[1]) != n {
+				fail("json", "json.Unmarshal of "+string(jb)+" into used variables", fmt.Sprint(uint64(back), " ", uint64(doc.A), " ", doc.L, " ", e1, " ", e2), fmt.Sprint(n))
+			}
+		}
+		w.Eval(3)
 	}
 	w.Eval(15)
 	if roman.MaxInputLength == 0 || len(wantD) <= roman.MaxInputLength {
@@ -328,6 +353,35 @@ func runC02(c *rt.Ctx) {
 	c.Require("number-beyond-2^32", 14)
 	roman.MaxInputLength = oldLimit
 	c.Require("other-input-limit", 100)
+
+	// the named composite constants, as a caller writes them (not assembled from single bits by the harness)
+	c.Parallel("named-format-constants", 0, func(w *rt.W) {
+		named := []struct {
+			name string
+			f    roman.Format
+			rf   ref.RomanFlags
+		}{
+			{"FormatLong4x", roman.FormatLong4x, ref.RomanFlags{Long4: true, Long40: true, Long400: true}},
+			{"FormatLong9x", roman.FormatLong9x, ref.RomanFlags{Long9: true, Long90: true, Long900: true}},
+			{"FormatLong", roman.FormatLong, ref.RomanFlags{Long4: true, Long40: true, Long400: true, Long9: true, Long90: true, Long900: true}},
+			{"FormatLong9x|FormatLowerCase", roman.FormatLong9x | roman.FormatLowerCase, ref.RomanFlags{Long9: true, Long90: true, Long900: true, Lower: true}},
+			{"FormatLong4x|FormatLong9", roman.FormatLong4x | roman.FormatLong9, ref.RomanFlags{Long4: true, Long40: true, Long400: true, Long9: true}},
+			{"FormatLong4", roman.FormatLong4, ref.RomanFlags{Long4: true}}, {"FormatLong40", roman.FormatLong40, ref.RomanFlags{Long40: true}}, {"FormatLong400", roman.FormatLong400, ref.RomanFlags{Long400: true}},
+			{"FormatLong9", roman.FormatLong9, ref.RomanFlags{Long9: true}}, {"FormatLong90", roman.FormatLong90, ref.RomanFlags{Long90: true}}, {"FormatLong900", roman.FormatLong900, ref.RomanFlags{Long900: true}},
+			{"FormatLowerCase", roman.FormatLowerCase, ref.RomanFlags{Lower: true}},
+		}
+		for n := uint64(w.Shard); n <= 4999; n += uint64(w.NShards) {
+			for _, nf := range named {
+				out, err := roman.DefaultFormatter(nil, roman.Number(n), nf.f)
+				w.Eval(1)
+				if want := ref.RomanFormat(n, nf.rf); err != nil || string(out) != want {
+					w.Fail("format-named-constant", "format-parse", rt.Args("n", n, "flags", int(nf.f), "format_value", int(nf.f), "path", "DefaultFormatter with roman."+nf.name), string(out), want, "roman."+nf.name+" does not select the forms its documentation names")
+				}
+			}
+			w.ClassN("named-format-constant-numbers", 1)
+		}
+	})
+	c.Require("named-format-constant-numbers", 5000)
 
 	// verbs and marshal paths under every DefaultFormat value (global: barrier per value)
 	var ns []uint64
